@@ -91,6 +91,7 @@ package scan
 //@            && (forall j int :: it.last < j && j < it.e0 + big(it.P) - 1 ==> seq(big(it.G), big(it.P), j) > big(it.rangeLimit)))
 
 //@ func (*rangeIterator).Next
+//@   sig it
 //@   props C04 C01 C02 C08 C19
 //@   requires RI(it)
 //@   modifies it.stop, big(it.I), it.e, it.last
@@ -107,6 +108,7 @@ package scan
 //@   ensures same: it.e0 == old(it.e0) && big(it.G) == old(big(it.G)) && big(it.P) == old(big(it.P)) && big(it.rangeLimit) == old(big(it.rangeLimit))
 
 //@ func newRangeIterator
+//@   sig n
 //@   props C04 C01 C02 C08 C19
 //@   modifies nothing
 //@   ensures reject: (n < 1 || n >= 4294967357) ==> ret1 != nil
@@ -141,11 +143,13 @@ package scan
 //@                            when r.Err == nil && ferr == nil && x.Buf == buf && x.Err == nil && newobj(x) -> continue
 //@   loop 0 row fill_c:    [recv in as (r, true) ; call NewSerializeBuffer() as (buf) ; call Fill(g.filler, buf, r) as (ferr) ; ctxdone] when r.Err == nil -> continue
 //@ func (*packetGenerator).Packets
+//@   sig g, ctx, in
 //@   props C07 C16 C01 C19 C05 C11 C13 C12 C02 C17
 //@   entry row start: [go (*packetGenerator).Packets$1] -> exit
 
 // multi-generator: exactly numWorkers generator instances, all reading the same request channel, merged
 //@ func (*packetMultiGenerator).Packets
+//@   sig g, ctx, in
 //@   props C07 C16 C01 C19 C13 C05 C11 C12 C02 C17
 //@   observe Packets, MergeBufferDataChan
 //@   requires g.numWorkers >= 0
@@ -156,6 +160,7 @@ package scan
 // merger: every element received from a worker is forwarded once; the output is closed only after all
 // multiplexers have returned
 //@ func MergeBufferDataChan$1
+//@   sig c
 //@   props C07 C12 C01 C19 C13 C05 C11 C16 C02 C17
 //@   observe (*sync.WaitGroup).Done
 //@   loop 0 row cancel:  [ctxdone ; call Done(_)] -> exit
@@ -167,6 +172,7 @@ package scan
 //@   observe (*sync.WaitGroup).Wait
 //@   entry row closer: [call Wait(_) ; close out] -> exit
 //@ func MergeBufferDataChan
+//@   sig ctx, channels
 //@   props C07 C12 C16 C01 C19 C13 C05 C11 C02 C17
 //@   observe (*sync.WaitGroup).Add
 //@   entry row setup: [call Add(_, len(channels))] -> loop 0
@@ -175,6 +181,7 @@ package scan
 
 // packet source: a generator that fails to start yields exactly one error packet on a closed channel
 //@ func (*packetSource).Packets
+//@   sig s, ctx, r
 //@   props C07 C13 C16 C12 C01 C19 C05 C11 C02 C17
 //@   observe GenerateRequests, Packets
 //@   entry row generr: [call GenerateRequests(s.reqgen, ctx, r) as (reqs, gerr) ; send bind_c bind_x ; close bind_c2] when gerr != nil && c == c2 && ret == c && x.Err == gerr && x.Buf == nil -> exit
@@ -182,6 +189,7 @@ package scan
 
 // packet engine: the source feeds the sender, completion = the sender's done, both error streams are merged
 //@ func (*PacketEngine).Start
+//@   sig e, ctx, r
 //@   props C07 C16 C12 C01 C20 C19 C13 C03 C08 C14 C15 C06 C09 C10 C11
 //@   observe Packets, SendPackets, ReceivePackets, mergeErrChan
 //@   entry row wiring: [call Packets(e.src, ctx, r) as (pk) ; call SendPackets(e.snd, ctx, pk) as (done, errc1) ; call ReceivePackets(e.rcv, ctx) as (errc2) ; call mergeErrChan(ctx, bind_cs) as (m)]
@@ -189,6 +197,7 @@ package scan
 
 // error merger (same shape as the packet merger; the send is guarded)
 //@ func mergeErrChan$1
+//@   sig c
 //@   props C07 C08 C12 C20 C16 C13 C03
 //@   observe (*sync.WaitGroup).Done
 //@   loop 0 row cancel:  [ctxdone ; call Done(_)] -> exit
@@ -199,6 +208,7 @@ package scan
 //@   observe (*sync.WaitGroup).Wait
 //@   entry row closer: [call Wait(_) ; close out] -> exit
 //@ func mergeErrChan
+//@   sig ctx, channels
 //@   props C07 C08 C12 C20 C16 C13 C03
 //@   observe (*sync.WaitGroup).Add
 //@   entry row setup: [call Add(_, len(channels))] -> loop 0
@@ -210,6 +220,7 @@ package scan
 // worker: per received request: failed request -> one error, no probe; otherwise exactly one probe, then
 // one error, or one result, or nothing
 //@ func (*GenericEngine).worker
+//@   sig e, ctx, wg, requests, errc
 //@   props C08 C13 C12 C10 C09 C01 C02 C15
 //@   observe Scan, Put, (*sync.WaitGroup).Done
 //@   loop 0 row cancel:  [ctxdone ; call Done(_)] -> exit
@@ -221,6 +232,7 @@ package scan
 
 // Start: generator failure -> one error, both channels closed; otherwise the coordinator goroutine
 //@ func (*GenericEngine).Start
+//@   sig e, ctx, r
 //@   props C08 C12 C16 C01 C13 C02 C09 C10 C15
 //@   observe GenerateRequests
 //@   entry row generr: [call GenerateRequests(e.reqgen, ctx, r) as (reqs, gerr) ; send bind_ec gerr ; close bind_ec2 ; close bind_dc] when gerr != nil && ec == ec2 && ret0 == dc && ret1 == ec -> exit
@@ -235,6 +247,7 @@ package scan
 
 // result hand-off: Put is a guarded send on the internal channel; the copier forwards each element once
 //@ func (*resultChan).Put
+//@   sig c, r
 //@   props C08 C12 C14 C20 C16 C06 C03 C09 C10 C11
 //@   entry row put: [send? c.internalResults r] -> exit
 //@ func NewResultChan$1
@@ -245,6 +258,7 @@ package scan
 
 // C15: every probe is charged exactly once, before it starts
 //@ func (*rateLimitScanner).Scan
+//@   sig s, ctx, r
 //@   props C15 C01 C08 C02 C09 C10 C13 C12
 //@   observe Take, Scan
 //@   entry row charged: [call Take(s.limiter) ; call Scan(s.Scanner, ctx, r) as (res, e)] when ret0 == res && ret1 == e -> exit
@@ -265,6 +279,7 @@ package scan
 //@   loop 0 row cancel_t:  [ctxdone ; call time.After(rg.rescanTimeout) as (t) ; recv t as (_, _) ; call GenerateRequests(rg.delegate, ctx, r) as (nr, e)]
 //@                            when requests == nr -> continue
 //@ func (*liveRequestGenerator).GenerateRequests
+//@   sig rg, ctx, r
 //@   props C19 C01 C02 C07 C13 C17 C04 C05 C08 C12 C11
 //@   observe GenerateRequests
 //@   entry row fail:  [call GenerateRequests(rg.delegate, ctx, r) as (rq, e)] when e != nil && ret0 == nil && ret1 == e -> exit
@@ -284,6 +299,7 @@ package scan
 //@ spec lineport(line int) int = ite(hasport(line), jsonport(line), 0)
 // generated easyjson decoder: members that are present are assigned, absent members leave the field untouched
 //@ func (*IPPort).UnmarshalJSON
+//@   sig v, data
 //@   trusted generated easyjson decoder (request_easyjson.go): assigns exactly the members present in the input
 //@   modifies v.IP, v.Port
 //@   ensures ret == nil ==> v.IP == ite(hasip(data), jsonip(data), old(v.IP)) && v.Port == ite(hasport(data), jsonport(data), old(v.Port))
@@ -338,6 +354,7 @@ package scan
 // nothing outside it ever is (confinement). FillBytes cannot panic (0 <= NET + I - 1 < 2^32).
 //@ pred IPv4Net(n *net.IPNet) = n != nil && len(n.IP) == 4 && len(n.Mask) == 4
 //@ func (*ipGenerator).IPs
+//@   sig arg0, ctx, r
 //@   props C01 C02 C04 C19 C07 C13 C17 C05 C08 C12 C11
 //@   requires r != nil && (r.DstSubnet != nil ==> IPv4Net(r.DstSubnet))
 //@   ensures nosubnet: old(r.DstSubnet) == nil ==> ret0 == nil && ret1 == ErrSubnet
@@ -369,12 +386,14 @@ package scan
 // port generator: for each range in order, the value sent is StartPort + (I - 1) (exact in uint16 because
 // validatePorts gives StartPort <= EndPort, so 1 <= I <= n <= 65536 and the iterator cannot fail to be built)
 //@ func validatePorts
+//@   sig ports
 //@   props C01 C18 C02 C07 C13 C17 C19 C04 C05 C08 C12 C11
 //@   modifies nothing
 //@   ensures ret == nil ==> len(ports) > 0
 //@   loop 0 invariant seen: 0 <= rangeindex + 1 && (forall k int :: 0 <= k && k <= rangeindex ==> ports[k].StartPort <= ports[k].EndPort)
 //@   ensures ordered: ret == nil ==> (forall k int :: 0 <= k && k < len(ports) ==> ports[k].StartPort <= ports[k].EndPort)
 //@ func (*portGenerator).Ports
+//@   sig arg0, ctx, r
 //@   props C01 C04 C02 C07 C13 C17 C19 C05 C08 C12 C11
 //@   requires r != nil
 //@   observe validatePorts
@@ -414,6 +433,7 @@ package scan
 //@   loop 1 row passdone: [recv pre(ips) as (a, false) ; call IPs(rg.ipgen, ctx, r) as (nips, e3)] when e3 == nil && ips == nips -> loop 0
 //@   loop 1 row regenerr: [recv pre(ips) as (a, false) ; call IPs(rg.ipgen, ctx, r) as (nips, e3) ; send? out bind_x ; close out] when e3 != nil && x.Err == e3 -> exit
 //@ func (*ipPortGenerator).GenerateRequests
+//@   sig rg, ctx, r
 //@   props C01 C02 C07 C13 C17 C19 C04 C05 C08 C12 C11
 //@   observe Ports, IPs
 //@   entry row noports: [call Ports(rg.portgen, ctx, r) as (ps, e)] when e != nil && ret0 == nil && ret1 == e -> exit
@@ -429,6 +449,7 @@ package scan
 //@   loop 0 row closed:  [recv ips as (a, false) ; close out] -> exit
 //@   loop 0 row request: [recv ips as (a, true) ; call GetIP(a) as (dstip, e) ; send? out bind_x] when x.DstIP == dstip && x.Err == e && x.SrcIP == r.SrcIP && x.SrcMAC == r.SrcMAC && newobj(x) -> continue
 //@ func (*ipRequestGenerator).GenerateRequests
+//@   sig rg, ctx, r
 //@   props C01 C19 C02 C07 C13 C17 C04 C05 C08 C12 C11
 //@   observe IPs
 //@   entry row noips: [call IPs(rg.ipgen, ctx, r) as (is, e)] when e != nil && ret0 == nil && ret1 == e -> exit
@@ -439,16 +460,19 @@ package scan
 // C08: engine construction. The engine keeps exactly the generator, scanner and result channel it was given;
 // default 100 workers; the worker option sets exactly the worker count; options are applied in order, then nothing.
 //@ func WithScanWorkerCount$1
+//@   sig s
 //@   props C08 C01 C02 C09 C10 C13 C15 C12
 //@   modifies s.workerCount
 //@   ensures s.workerCount == workerCount
 //@ func NewScanEngine
+//@   sig reqgen, scanner, results, opts
 //@   props C08 C01 C02 C09 C10 C13 C15 C12
-//@   observe o
+//@   observe GenericEngineOption
 //@   entry row init:  [] when s.reqgen == reqgen && s.scanner == scanner && s.results == results && s.workerCount == 100 -> loop 0
-//@   loop 0 row apply: [call o(s)] -> continue
+//@   loop 0 row apply: [call GenericEngineOption(s)] -> continue
 //@   loop 0 row done:  [] when ret == s -> exit
 //@ func NewRateLimitScanner
+//@   sig delegate, limiter
 //@   props C15 C01 C02 C08 C09 C10 C13 C12
 //@   ensures isptr(ret, rateLimitScanner) && asptr(ret, rateLimitScanner).Scanner == delegate && asptr(ret, rateLimitScanner).limiter == limiter
 
@@ -457,77 +481,97 @@ package scan
 // was given; the outer function of a stage fails with the delegate's error and otherwise spawns its worker once on
 // the channel it returns.
 //@ func NewPacketSource
+//@   sig reqgen, pktgen
 //@   props C07 C01 C19 C05 C11 C13 C16 C12 C02 C17
 //@   ensures isptr(ret, packetSource) && asptr(ret, packetSource).reqgen == reqgen && asptr(ret, packetSource).pktgen == pktgen
 //@ func NewPacketGenerator
+//@   sig filler
 //@   props C07 C01 C05 C11 C13 C16 C19 C12 C02 C17
 //@   ensures isptr(ret, packetGenerator) && asptr(ret, packetGenerator).filler == filler
 //@ func NewPacketMultiGenerator
+//@   sig filler, numWorkers
 //@   props C07 C01 C19 C05 C11 C13 C16 C12 C02 C17
 //@   ensures isptr(ret, packetMultiGenerator) && asptr(ret, packetMultiGenerator).numWorkers == numWorkers && asptr(ret, packetMultiGenerator).gen != nil && asptr(ret, packetMultiGenerator).gen.filler == filler
 //@ func NewPacketEngine
+//@   sig ps, s, r
 //@   props C07 C20 C01 C03 C08 C13 C14 C15 C16 C06 C09 C10 C12 C11 C19
 //@   ensures ret != nil && ret.src == ps && ret.snd == s && ret.rcv == r
 //@ func NewEngineResulter
+//@   sig e, r
 //@   props C07 C08 C03 C06 C14 C16 C20 C09 C10 C11 C12
 //@   ensures isptr(ret, engineResulter) && asptr(ret, engineResulter).Engine == e && asptr(ret, engineResulter).Resulter == r
 //@ func SetupPacketEngine
+//@   sig rw, m
 //@   props C07 C20 C15 C03 C01 C08 C13 C14 C16 C06 C09 C10 C12 C11 C19
 //@   opaque packet.NewSender, packet.NewReceiver
 //@   observe NewPacketEngine, NewEngineResulter
 //@   entry row setup: [call packet.NewSender(bind_w) as (snd) ; call packet.NewReceiver(bind_rd, bind_pr) as (rcv) ; call NewPacketEngine(bind_src, snd, rcv) as (eng) ; call NewEngineResulter(bind_e2, bind_rs) as (er)]
 //@                       when w == rw && rd == rw && pr == m && src == m && rs == m && isptr(e2, PacketEngine) && asptr(e2, PacketEngine) == eng && ret == er -> exit
 //@ func NewIPPortGenerator
+//@   sig ipgen, portgen
 //@   props C01 C02 C07 C13 C17 C19 C04 C05 C08 C12 C11
 //@   ensures isptr(ret, ipPortGenerator) && asptr(ret, ipPortGenerator).ipgen == ipgen && asptr(ret, ipPortGenerator).portgen == portgen
 //@ func NewIPRequestGenerator
+//@   sig ipgen
 //@   props C01 C19 C02 C07 C13 C17 C04 C05 C08 C12 C11
 //@   ensures isptr(ret, ipRequestGenerator) && asptr(ret, ipRequestGenerator).ipgen == ipgen
 //@ func NewFileIPPortGenerator
+//@   sig openFile
 //@   props C01 C13 C02 C07 C17 C19 C04 C05 C08 C12 C11
 //@   ensures isptr(ret, fileIPPortGenerator) && asptr(ret, fileIPPortGenerator).openFile == openFile
 //@ func NewFileIPGenerator
+//@   sig openFile
 //@   props C01 C13 C02 C07 C17 C19 C04 C05 C08 C12 C11
 //@   ensures isptr(ret, fileIPGenerator) && asptr(ret, fileIPGenerator).openFile == openFile
 //@ func NewLiveRequestGenerator
+//@   sig rg, rescanTimeout
 //@   props C19 C01 C02 C07 C13 C17 C04 C05 C08 C12 C11
 //@   ensures isptr(ret, liveRequestGenerator) && asptr(ret, liveRequestGenerator).delegate == rg && asptr(ret, liveRequestGenerator).rescanTimeout == rescanTimeout
 //@ func NewFilterIPRequestGenerator
+//@   sig delegate, excludeIPs
 //@   props C02 C13 C01 C07 C17 C19 C04 C05 C08 C12 C11
 //@   ensures isptr(ret, filterIPRequestGenerator) && asptr(ret, filterIPRequestGenerator).delegate == delegate && asptr(ret, filterIPRequestGenerator).excludeIPs == excludeIPs
 //@ func (*filterIPRequestGenerator).GenerateRequests
+//@   sig rg, ctx, r
 //@   props C02 C13 C01 C07 C17 C19 C04 C05 C08 C12 C11
 //@   observe GenerateRequests
 //@   entry row fail:  [call GenerateRequests(rg.delegate, ctx, r) as (rq, e)] when e != nil && ret0 == nil && ret1 == e -> exit
 //@   entry row start: [call GenerateRequests(rg.delegate, ctx, r) as (rq, e) ; go (*filterIPRequestGenerator).GenerateRequests$1{out: bind_o, ctx: bind_c, requests: bind_rq2, rg: bind_g2}]
 //@                       when e == nil && ret1 == nil && ret0 == o && rq2 == rq && c == ctx && g2 == rg -> exit
 //@ func (*fileIPPortGenerator).GenerateRequests
+//@   sig rg, ctx, r
 //@   props C01 C13 C02 C07 C17 C19 C04 C05 C08 C12 C11
 //@   observe openFile
 //@   entry row fail:  [call openFile() as (in, e)] when e != nil && ret0 == nil && ret1 == e -> exit
 //@   entry row start: [call openFile() as (in, e) ; go (*fileIPPortGenerator).GenerateRequests$1{out: bind_o, ctx: bind_c, input: bind_in2, r: bind_r2}]
 //@                       when e == nil && ret1 == nil && ret0 == o && in2 == in && c == ctx && r2 == r -> exit
 //@ func (*fileIPGenerator).IPs
+//@   sig g, ctx, _
 //@   props C01 C13 C02 C07 C17 C19 C04 C05 C08 C12 C11
 //@   observe openFile
 //@   entry row fail:  [call openFile() as (in, e)] when e != nil && ret0 == nil && ret1 == e -> exit
 //@   entry row start: [call openFile() as (in, e) ; go (*fileIPGenerator).IPs$1{out: bind_o, ctx: bind_c, input: bind_in2}]
 //@                       when e == nil && ret1 == nil && ret0 == o && in2 == in && c == ctx -> exit
 //@ func NewResultChan
+//@   sig ctx, capacity
 //@   props C08 C12 C14 C16 C03 C06 C20 C09 C10 C11
 //@   entry row start: [go NewResultChan$1{results: bind_rs, internalResults: bind_ir, ctx: bind_c}]
 //@                       when c == ctx && isptr(ret, resultChan) && asptr(ret, resultChan).results == rs && asptr(ret, resultChan).internalResults == ir && asptr(ret, resultChan).ctx == ctx && rs != ir -> exit
 //@ func (*resultChan).Chan
+//@   sig c
 //@   props C08 C14 C03 C06 C16 C20 C09 C10 C11 C12
 //@   ensures ret == c.results
 //@ func (*GenericEngine).Results
+//@   sig e
 //@   props C08 C01 C02 C09 C10 C13 C15 C12
 //@   observe Chan
 //@   entry row chan: [call Chan(e.results) as (c)] when ret == c -> exit
 //@ func isValidPort
+//@   sig port
 //@   props C13 C18 C01 C02 C07 C17 C19 C04 C05 C08 C12 C11
 //@   ensures ret <==> (1 <= port && port <= 65535)
 //@ func (*rangeIterator).Int
+//@   sig it
 //@   props C04 C01 C02 C08 C19
 //@   ensures ret == it.I
 
@@ -544,20 +588,25 @@ package scan
 // carriers on the address and port streams: a value carrier yields exactly its value and no error, an error
 // carrier yields no value and itself as the error (C13: the cause travels unchanged)
 //@ func (WrapIP).GetIP
+//@   sig i
 //@   props C01 C02 C13 C19
 //@   ensures ret0 == i && ret1 == nil
 //@ func (WrapPort).GetPort
+//@   sig p
 //@   props C01 C13
 //@   ensures ret0 == p && ret1 == nil
 //@ func (*ipError).GetIP
+//@   sig err
 //@   props C13 C01
 //@   ensures len(ret0) == 0 && isptr(ret1, ipError) && asptr(ret1, ipError) == err
 //@ func (*portError).GetPort
+//@   sig err
 //@   props C13 C01
 //@   ensures ret0 == 0 && isptr(ret1, portError) && asptr(ret1, portError) == err
 
 // option constructors: each returns its own option closure over exactly its argument (verified here, inlined at call sites)
 //@ func WithScanWorkerCount
+//@   sig workerCount
 //@   inline
 //@   props C08 C01 C02 C09 C10 C13 C15 C12
 //@   ensures closureof(ret, "WithScanWorkerCount$1") && capt(ret, "workerCount") == workerCount
